@@ -89,6 +89,7 @@ def fidelity(res):
                     "STUB": lambda t: True,
                     "E14": lambda t: re.match(r"pub(\((crate|super)\))?$", t.strip()) is not None,
                     "E12": lambda t: t.strip().startswith("("),
+                    "E16": lambda t: re.match(r"(rusqlite::)?params!\s*[\[({]$", t.strip()) is not None or t.strip() in ("]", ")", "}"),
                 }.get(rule, lambda t: False)(txt)
                 if not ok:
                     raise Inconclusive("fidelity: rule %s dropped unexpected text %r in %s" % (rule, txt[:60], it["path"]))
@@ -451,6 +452,7 @@ CANARIES = {
     "u3": ("server/src/api/add_version.rs", "let mut rb = HttpResponse::Conflict();", "let mut rb = HttpResponse::Ok();", "enc.av"),
     "u4": ("server/src/bin/taskchampion-sync-server.rs", "snapshot_days: server_args.snapshot_days,", "snapshot_days: 14,", "wire.server"),
     "u5": ("sqlite/src/lib.rs", ".map_err(|_| rusqlite::types::FromSqlError::InvalidType)?;", ".unwrap_or(Uuid::nil());", "enc.id.read"),
+    "u6": ("sqlite/src/lib.rs", "snapshot.timestamp.timestamp(),", "snapshot.timestamp.timestamp_millis(),", "enc.snapshot.write"),
 }
 
 
